@@ -15,7 +15,7 @@ import datetime
 
 from .. import bridge, seams, sigworld, world
 from ..ref import enc as renc, sigs as rsigs
-from ..ref.wire import WireError, split_packets
+from ..ref.wire import WireError, encode_packet, split_packets
 
 ID = 'C17'
 RULE = ('cases are histories of 4-12 steps (sign, corrupt, tick across expiry, verify) over 2-3 keys drawn from the strength x '
@@ -23,7 +23,7 @@ RULE = ('cases are histories of 4-12 steps (sign, corrupt, tick across expiry, v
         'wrong signature) present together with at least one advisory weakness; distinct = distinct (issue-class combination, '
         'subject kind, signature count) sets')
 TIERS = {'quick': {'runs': 4000, 'budget_s': 80}, 'thorough': {'runs': 200000, 'budget_s': 1500}}
-PROBES = ('results_combined', 'combined_good_then_bad', 'expired_and_insecure_curve', 'expired_and_short_key', 'expired_and_revoked', 'expired_strong', 'wrongsig_and_revoked',
+PROBES = ('issuer_forged_to_encryption_subkey', 'results_combined', 'combined_good_then_bad', 'expired_and_insecure_curve', 'expired_and_short_key', 'expired_and_revoked', 'expired_strong', 'wrongsig_and_revoked',
           'wrongsig_and_insecure_curve', 'wrongsig_and_short_key', 'wrongsig_and_weak_hash', 'clock_crossed_expiry', 'verifier_behind_signer',
           'multi_signature_call', 'verify_key_call', 'subkey_revoked_signer', 'all_good')
 KEYALGS = ['ed25519', 'ed25519', 'p256', 'p384', 'secp256k1', 'rsa1024', 'dsa1024', 'rsa2048', 'dsa2048']
@@ -35,7 +35,9 @@ def generate(rng, tier):
     for i in range(rng.choice([2, 2, 3])):
         alg = rng.choice(KEYALGS)
         subs = [{'alg': rng.choice(['ed25519', 'p256']), 'usage': 'S'}] if rng.random() < 0.4 else []
-        keys['k%d' % i] = {'alg': alg, 'uids': [['Signer %d' % i, '', 's%d@example.org' % i]], 'subkeys': subs,
+        has_enc = rng.random() < 0.4
+        keys['k%d' % i] = {'alg': alg, 'uids': [['Signer %d' % i, '', 's%d@example.org' % i]],
+                           'subkeys': subs + ([{'alg': 'cv25519', 'usage': 'E'}] if has_enc else []),
                            'usage': 'C' if subs and rng.random() < 0.5 else 'CS', 'created_us': 1_500_000_000_000_000,
                            'key_expiration_s': rng.choice([None, None, 10 * DAY, 400 * DAY, 4000 * DAY]),
                            'revoked': rng.random() < 0.25, 'revoked_subkeys': [0] if subs and rng.random() < 0.25 else [],
@@ -52,7 +54,7 @@ def generate(rng, tier):
             kind = rng.choice(['doc', 'doc', 'msg', 'msg', 'cert_self', 'cert_other', 'inkey'])
             steps.append({'id': sid, 'op': 'sign_verify', 'kind': kind, 'key': rng.choice(knames), 'target': rng.choice(knames),
                           'hash': rng.choice([8, 8, 10, 2, 1, 11]), 'nsigners': rng.choice([1, 2, 3]),
-                          'corrupt': rng.choice([None, None, 'subject', 'sig', 'sig']), 'pos': rng.random(), 'bit': rng.randrange(8),
+                          'corrupt': rng.choice([None, None, 'subject', 'sig', 'sig', 'issuer_encsub']), 'pos': rng.random(), 'bit': rng.randrange(8),
                           'verify_after_tick_s': rng.choice([0, 0, 11 * DAY, 401 * DAY, -DAY]),
                           'combine': rng.choice([None, None, 'and', 'iand']), 'cosign_subkey': rng.random() < 0.4})
     return {'config': {'keys': keys, 'start_us': 1_500_000_000_000_000 + 5 * DAY * 1_000_000}, 'steps': steps}
@@ -135,6 +137,7 @@ def _sign_verify(pgpy, w, step, ctx, combos):
         art.verifier = bytes(w.keys[name].pubkey)
         art.subject = {'t': 'inkey', 'keybytes': bytes(w.keys[name].pubkey)}
         art.signer_name = name
+    forged = False
     # corruption
     if step.get('corrupt') == 'subject':
         s = art.subject
@@ -153,6 +156,26 @@ def _sign_verify(pgpy, w, step, ctx, combos):
                 else:
                     out += p.raw
             s['bytes'] = bytes(out)
+    elif step.get('corrupt') == 'issuer_encsub' and art.sig is not None:
+        # the signature re-pointed at the key's own encryption subkey (a component without any signature scheme): whatever
+        # comes back, it is not a good signature
+        from ..ref.wire import split_subpackets
+        own = w.keys[name]
+        nosign = [sk for sk in own.subkeys.values() if not sk.key_algorithm.can_sign]
+        try:
+            body = split_packets(art.sig)[0].body
+            hl = int.from_bytes(body[4:6], 'big')
+            ul = int.from_bytes(body[6 + hl:8 + hl], 'big')
+            iss = [x for x in split_subpackets(body[8 + hl:8 + hl + ul]) if x.type == 16]
+        except (WireError, IndexError):
+            iss = []
+        if nosign and iss:
+            o = 8 + hl + iss[-1].off + len(iss[-1].raw) - 8
+            nb = bytearray(body)
+            nb[o:o + 8] = bytes.fromhex(str(nosign[0].fingerprint))[-8:]
+            art.sig = encode_packet(2, bytes(nb))
+            forged = True
+            ctx.probe('issuer_forged_to_encryption_subkey')
     elif step.get('corrupt') == 'sig' and art.sig is not None:
         m = bytearray(art.sig)
         m[-1 - int(step['pos'] * 20)] ^= 1 << step['bit']
@@ -177,6 +200,9 @@ def _sign_verify(pgpy, w, step, ctx, combos):
     good = list(res.good_signatures)
     bad = list(res.bad_signatures)
     truthy = bool(res)
+    if forged and (good or (truthy and len(res))):
+        ctx.viol('C17:wrong-signature-good:forged-issuer', 'a signature whose issuer was rewritten to the key\'s encryption subkey is reported good '
+                 '(good=%d, truthy=%s)' % (len(good), truthy))
     # coherence of the returned object
     if len(good) + len(bad) != len(res):
         ctx.viol('C17:not-partitioned', 'good (%d) + bad (%d) != signatures examined (%d)' % (len(good), len(bad), len(res)))
